@@ -23,7 +23,7 @@ pub fn run_case(h: &History, ctx: &mut Ctx) -> CaseResult {
         // unpruned twin for compose<true>
         let twin = match op {
             HOp::Compose { prune: true, g, out } => {
-                let mut s2 = HState { t: st.t.clone(), r: st.r.clone(), in_dim: st.in_dim, out_dim: st.out_dim, anchors: st.anchors.clone(), shift: st.shift, tracking: st.tracking };
+                let mut s2 = HState { t: st.t.clone(), r: st.r.clone(), in_dim: st.in_dim, out_dim: st.out_dim, anchors: st.anchors.clone(), shift: st.shift, total_operands_only: st.total_operands_only, tracking: st.tracking };
                 let info2 = step(&mut s2, &HOp::Compose { prune: false, g: g.clone(), out: *out }).map_err(|f| Failure::with(format!("step {i} (unpruned twin): {}", f.msg), f.detail))?;
                 if info2.skipped {
                     None
